@@ -98,7 +98,11 @@ func ValidateUnixEpochTimestamp(b []byte, now time.Time) error {
 	tsEpoch := int64(binary.BigEndian.Uint64(b))
 	nowEpoch := now.Unix()
 	diff := tsEpoch - nowEpoch
-	if diff < -MaxEpochDiff || diff > MaxEpochDiff {
+	// Timestamps are whole seconds, so a timestamp that is MaxEpochDiff whole seconds old
+	// can be up to a second older than that on the real clock. Reject it, so that a
+	// timestamp never stays valid for longer than [ReplayWindowDuration], the amount
+	// of time salts are remembered for replay protection.
+	if diff <= -MaxEpochDiff || diff > MaxEpochDiff {
 		return &HeaderError[int64]{ErrBadTimestamp, nowEpoch, tsEpoch}
 	}
 	return nil
